@@ -148,3 +148,24 @@ package smtp
 //@   ensures[C03,C04:step] quiet(c.Text) && c.didHello && txsame(c.Text)
 //@ func smtp.Client.Quit
 //@   requires[C04:in-step] c != nil && quiet(c.Text)
+
+// ---------------------------------------------------------------------------
+// C16  Authentication secrets never reach the debug log
+//
+// Every command of an AUTH exchange is sent with the format "%s" or "*" (kind 13); these
+// are the secret-carrying commands. The redaction window is c.authIsActive.
+//@ func smtp.Client.cmd (expectCode, format, args) (code, msg, err)
+//@   requires[C16:window] c != nil && (kind(format) == 13 ==> c.authIsActive || c.logAuthData)
+//@ at smtp.Client.cmd smtp.Client.debugLog#1 before assert[C16:command-redacted] c.authIsActive ==> len(logMsg) == 1 && unboxstr(logMsg[0]) == "<SMTP auth data redacted>" && logFmt == "%s"
+//@ at smtp.Client.cmd smtp.Client.debugLog#1 before assert[C16:command-logged-outside-window] !c.authIsActive ==> logMsg == args && logFmt == format
+//@ at smtp.Client.cmd smtp.Client.debugLog#2 before assert[C16:reply-redacted] c.authIsActive && code >= 300 && code <= 400 ==> len(logMsg) == 2 && unboxstr(logMsg[1]) == "<SMTP auth data redacted>"
+//@ func smtp.Client.Auth$1
+//@   ensures[C16:window-closed] !c.logAuthData ==> !c.authIsActive
+//@ func smtp.Client.Auth
+//@   requires[C16:wf] c != nil
+//@   ensures[C16:window-closed] !c.logAuthData && !old(c.authIsActive) ==> !c.authIsActive
+//@   loop 1 invariant[C16:window] c.authIsActive || c.logAuthData
+//@ func smtp.Client.hello
+//@   ensures[C16:flags] c.authIsActive == old(c.authIsActive) && c.logAuthData == old(c.logAuthData)
+//@ func smtp.Client.Quit
+//@   requires[C16:wf] c != nil
